@@ -4204,6 +4204,8 @@ class DecAffine(Affine):
                 raise ValueError('The expression of x must be a scalar')
 
         if isinstance(x, (DecVar, DecVarSub, DecAffine)):
+            if self.model is not x.model:
+                raise ValueError('Models mismatch.')
             event_adapt = comb_set(event_adapt, x.event_adapt)
 
         if isinstance(z, (DecVar, DecVarSub)):
@@ -4214,6 +4216,8 @@ class DecAffine(Affine):
                 raise ValueError('The expression of z must be a scalar')
 
         if isinstance(z, (DecVar, DecVarSub, DecAffine)):
+            if self.model is not z.model:
+                raise ValueError('Models mismatch.')
             event_adapt = comb_set(event_adapt, z.event_adapt)
 
         return DecExpConstr(ExpConstr(self.model, x, self, z), event_adapt)
